@@ -585,6 +585,13 @@ def corpus_disc(tier, seed):
     p.tags.append('restricted_vis')
     p = A([V('A'), V('B'), V('C'), V('D')], repr='u16')
     p.variants[0].disc, p.variants[2].disc = '500', '2'
+    # explicit discriminants on every variant kind (tuple and struct-like), followed by implicit ones; 128-bit repr
+    p = A([V('Ping'), V('Data', 'tuple', ['u8']), V('Ack', 'named', ['u16']), V('Close'), V('Tail', 'named', ['bool'])], repr='u8')
+    p.variants[0].disc, p.variants[1].disc, p.variants[2].disc = '1', '16', '40'
+    p = A([V('Small'), V('Huge'), V('Next', 'tuple', ['u8'])], repr='u128')
+    p.variants[1].disc = '18446744073709551616'
+    p = A([V('Neg'), V('Pos')], repr='i128')
+    p.variants[0].disc = '-5'
     # the enum itself is not `pub`: IntoDiscriminant is still implemented unless vis(..) says otherwise
     A([V('Inner'), V('Data', 'tuple', ['u8'])]).vis = 'pub(crate)'
     A([V('Priv'), V('Two')]).vis = ''
@@ -632,8 +639,8 @@ IS_IDENTS = ['Red', 'Blue2', 'HTTPStatus', 'X1Y2', 'GreenLeaf', 'A', 'Orange9Lig
 def corpus_is(tier, seed):
     nm = Namer()
     out = []
-    def A(vs, **kw):
-        p = parse_prog(nm, vs, stem='Is', derives=('EnumIs', 'EnumTryAs'), **kw)
+    def A(vs, derives=('EnumIs', 'EnumTryAs'), **kw):
+        p = parse_prog(nm, vs, stem='Is', derives=derives, **kw)
         out.append(p)
         return p
     A([V('Red'), V('Blue2', 'tuple', ['u8']), V('HTTPStatus', 'tuple', ['i32', 'bool']), V('GreenLeaf', 'named', ['usize'])])
@@ -644,6 +651,8 @@ def corpus_is(tier, seed):
     # exactly one enabled variant next to disabled ones (unit and data-carrying)
     A([V('Up'), V('Down', disabled=True), V('Side', 'tuple', ['u8'], disabled=True)])
     A([V('GoneFirst', disabled=True), V('V4l2', 'tuple', ['u8', 'bool'])])
+    # more variants than a u8 tag can number
+    A([V('W%d' % i) for i in range(257)], derives=('EnumIs',))
     if tier == 'quick':
         return add_noise(out)
     for k in range(30):
@@ -676,6 +685,7 @@ def corpus_msg(tier, seed):
     A([M(V('RedFox'), None, 'detail only', DOCS[3]), M(V('BlueSky', ts='bleu'), '', '', DOCS[4]), M(V('Gone', disabled=True), 'hidden', 'hidden', DOCS[2]), M(V('Plain', ser=['p', 'plain']), 'msg')], serialize_all='snake_case')
     A([M(V('G', 'tuple', ['T']), 'generic', None, DOCS[1]), M(V('H'))])
     A([M(V('GoneA', disabled=True), 'x'), M(V('GoneB', disabled=True))])
+    A([M(V('LinkUp'), 'up'), M(V('LinkDown', ser=['down']), None, 'd'), M(V('Flap', ts='flap!'))], prefix='net.', serialize_all='snake_case')
     # detailed_message written before message, attributes split; doc lines starting with a tab / NBSP keep it
     A([M(V('First'), 'plain', 'detailed', DOCS[8]), M(V('Second', 'tuple', ['u8']), 'only plain', None, DOCS[9]), M(V('Third'), None, 'only detailed')]).attr_layout = 'split_rev'
     A([M(V('First'), 'plain', 'detailed', DOCS[9]), M(V('Second'), 'p2', 'd2', DOCS[7])]).attr_layout = 'split'
